@@ -397,10 +397,23 @@ func (c01) Eval(c *Chooser, env *Env) *Outcome {
 		w.StdoutFailAt = 1 + c.Int("fault.stdoutfailat", 400)
 		desc = append(desc, fmt.Sprintf("stdout-fails-after-%d-bytes", w.StdoutFailAt-1))
 	}
+	if !ro.ReuseLinter && c.Weighted("fault.logfails", 1, 10) {
+		// the log / error stream cannot be written (stderr on a full disk, a closed descriptor) from
+		// some byte on - with -verbose / -debug that is in the middle of the run: no crash, no hang,
+		// a documented exit status
+		w.LogFailAt = 1 + c.Int("fault.logfailat", 300)
+		desc = append(desc, fmt.Sprintf("log-writer-fails-after-%d-bytes", w.LogFailAt-1))
+	}
 	res := RunLint(w, c, ro)
 	o.addRun(res.K)
 	if env.KeepTrace {
 		o.Traces = append(o.Traces, res.K.Trace)
+	}
+	if res.LogWriteFailures > 0 {
+		if o.Faults == nil {
+			o.Faults = map[string]int{}
+		}
+		o.Faults["log-write-error"] += res.LogWriteFailures
 	}
 	if w.StdoutFailAt > 0 {
 		if o.Faults == nil {
@@ -442,7 +455,8 @@ func (c01) Eval(c *Chooser, env *Env) *Outcome {
 		return o
 	}
 	if mustFatal != "" && (mustIdx == -2 || res.K.FaultHits[mustIdx] > 0) {
-		if res.Exit != 3 || strings.TrimSpace(res.Stderr) == "" {
+		// (a stderr that cannot be written stays empty: then only the status is demanded)
+		if res.Exit != 3 || (w.LogFailAt == 0 && strings.TrimSpace(res.Stderr) == "") {
 			o.V = &Violation{Oracle: "io-fault-is-fatal", Class: "unreadable-input-not-fatal",
 				Message: fmt.Sprintf("%s but the exit status is %d (stderr %q): a fatal I/O error must be reported with status 3 [faults: %s]", mustFatal, res.Exit, firstLine(res.Stderr), strings.Join(desc, ", "))}
 			return o
